@@ -26,14 +26,12 @@ ASSUMPTIONS = [
     'coefficients and vector entries are dyadic Gaussian rationals (float arithmetic exact)',
 ]
 OPEN_STATEMENTS = [
-    'qubit_sparse_sound is proved per term (qubit_term_matrix_sound: Kronecker chain of a Pauli string = its Spec '
-    'matrix, every n); the coordinate assembly over several terms (values in CSC order zipped with the swapped '
-    'row-major nonzero() indices) and the product of ladder matrices over a fermionic term (jw_sparse_sound; each '
-    'ladder matrix is proved: jw_ladder_sound; the final duplicate summation is proved: coo_assembly_sound) are Corr + oracle only '
-    '(all entries compared exactly on <= 5 qubits)',
+    'qubit_operator_sparse and jordan_wigner_sparse are proved end to end for every register size '
+    '(qubit_term_matrix_sound, coordinate_extraction_sound, coo_assembly_sound, qubit_sparse_sound; jw_ladder_sound, '
+    'jw_term_matrix_sound, jw_sparse_sound); the tensor dispatch (get_fermion_operator) belongs to C08 and is '
+    'covered here by the oracle against the operator built from the tensors by the checker',
     'matvec_sound (matvec_term_sound + matvec_linear), diagonal_term_sound and parallel_matvec_sound are proved at the '
-    'level stated in Properties/C06.lean (per term resp. per entry); the summation of the diagonal over the terms '
-    '(linearDiagonal) is Corr + oracle only',
+    'level stated in Properties/C06.lean (per term resp. per entry); diagonal_sound covers the sum over the terms',
     'truncated boson / quadrature matrices (sqrt amplitudes): numeric correspondence only',
     'expectation / variance / eigenspectrum: contract-only glue over scipy, numeric correspondence',
     'OS-level behaviour of multiprocessing.Pool (fork, pickling, worker death) is not expressible',
